@@ -71,7 +71,14 @@ FileLoad(e) ==
                                              bmp == RamAt(d, sb, BitmapOff(y, x \div 8))
                                              attr == RamAt(d, sb, AttrOff(y, x \div 8))
                                          IN p[3] \notin {PixelOf(bmp, attr, x, FALSE), PixelOf(bmp, attr, x, TRUE)}
-                        IN IF \E i \in DOMAIN e.pix : BadPix(e.pix[i]) THEN {"display"} ELSE {})
+                            ob == IF sb = 7 THEN 5 ELSE 7
+                            BadOther(p) == LET x == p[1]   y == p[2]
+                                               bmp == RamAt(d, ob, BitmapOff(y, x \div 8))
+                                               attr == RamAt(d, ob, AttrOff(y, x \div 8))
+                                           IN p[3] \notin {PixelOf(bmp, attr, x, FALSE), PixelOf(bmp, attr, x, TRUE)}
+                        IN (IF \E i \in DOMAIN e.pix : BadPix(e.pix[i]) THEN {"display"} ELSE {})
+                           \* after the program has switched to the other screen bank (128K, paging not locked)
+                           \cup (IF \E i \in DOMAIN e.pix_other : BadOther(e.pix_other[i]) THEN {"display:other-screen"} ELSE {}))
                   \* "halted and EI-pending status"; nothing inherited from the receiving machine
                   \cup (IF (st.halted = 1) # e.opts.halted THEN {"halted"} ELSE {})
                   \cup (IF (st.ei = 1) # e.opts.eilast THEN {"eilast"} ELSE {})
